@@ -239,22 +239,23 @@ type Request struct {
 }
 
 type Interp struct {
-	ext        map[string]func([]Value) Value // models of external functions supplied by a rule (by the callee's origin)
-	formatData []token.Pos                    // calls of Printer.P whose format argument contains the text of a type
-	repo       *Repo
-	plugin     string
-	decls      map[*types.Func]*VFunc
-	or         *Oracle
-	memo       map[string]int // decision memo by symbol within a run
-	tie        bool           // tie decisions of sibling fields/elements together (structure sweep)
-	lines      []Line
-	indent     int
-	depth      int
-	shape      int
-	arities    []int
-	preds      map[string]Value
-	stack      map[*ast.FuncDecl]int
-	steps      int
+	ext             map[string]func([]Value) Value // models of external functions supplied by a rule (by the callee's origin)
+	formatData      []token.Pos                    // calls of Printer.P whose format argument contains the text of a type
+	typeStringCalls []typeStringCall               // results of TypesMap.TypeString (each imports the packages of the named types it spells)
+	repo            *Repo
+	plugin          string
+	decls           map[*types.Func]*VFunc
+	or              *Oracle
+	memo            map[string]int // decision memo by symbol within a run
+	tie             bool           // tie decisions of sibling fields/elements together (structure sweep)
+	lines           []Line
+	indent          int
+	depth           int
+	shape           int
+	arities         []int
+	preds           map[string]Value
+	stack           map[*ast.FuncDecl]int
+	steps           int
 
 	decisions  []Decision
 	registered []Value
@@ -1802,7 +1803,10 @@ func (in *Interp) call(fr *Frame, c *ast.CallExpr) Value {
 			in.imports[f.Name]++
 			return hole("PKG", f.Name)
 		case "typesmap.TypeString":
-			return in.typeString(args[0], false)
+			ts := in.typeString(args[0], false)
+			// the qualifier imports the package of every named type it spells (a side effect of TypeString)
+			in.typeStringCalls = append(in.typeStringCalls, typeStringCall{ts, c.Pos()})
+			return ts
 		case "typesmap.TypeStringBypass":
 			return in.typeString(args[0], true)
 		case "typesmap.GetFuncName", "dep.GetFuncName":
@@ -2599,6 +2603,10 @@ func (in *Interp) nameOfVar(o *VOpaque, org string) Value {
 		if in.decide("NMT:"+tuple+":unnamed|named", 2) == 0 {
 			return lit("")
 		}
+		// in a named result list any result may be blank: (_ int, err error)
+		if in.decide("NM:"+o.Origin+":named|blank", 2) == 1 {
+			return lit("_")
+		}
 		return named
 	}
 	if in.decide("NMT:"+tuple+":named|unnamed", 2) == 1 {
@@ -2819,4 +2827,9 @@ func (in *Interp) memoAnswer(sym string) int {
 		return v
 	}
 	return -1
+}
+
+type typeStringCall struct {
+	str VStr
+	pos token.Pos
 }
